@@ -147,7 +147,7 @@ def _mixed_case(c):
         if set(got) != set(want):
             fails.append(fail("mixed_points", "request %d (level %r box %r-%r) families %r flags %r: points %r, per-dimension product %r" % (step, lv, s, e, fams, flags, sorted(got)[:5], sorted(want)[:5]), key))
             break
-        if max(abs(got[q] - want[q]) for q in want) > 1e-13 * max(1.0, max(abs(v) for v in want.values())):
+        if not (max(abs(got[q] - want[q]) for q in want) <= 1e-13 * max(1.0, max(abs(v) for v in want.values()))):
             fails.append(fail("mixed_weights", "request %d (level %r box %r-%r) families %r flags %r" % (step, lv, s, e, fams, flags), key))
             break
     return {"failures": fails, "canon": core.config_key(c), "outcome": (len(c["requests"]), len(fails)), "nontrivial": True, "evals": len(c["requests"])}
@@ -182,7 +182,7 @@ def run_case(case):
     if not hierarchical:
         if len(w) != len(pts):
             fails.append(fail("weights_length", "%d weights for %d points" % (len(w), len(pts)), key))
-        elif abs(float(np.sum(w)) - vol) > 1e-11 * vol:
+        elif not (abs(float(np.sum(w)) - vol) <= 1e-11 * vol):
             fails.append(fail("weights_sum_to_volume", "sum of weights %r, volume %r" % (float(np.sum(w)), vol), key))
     # all tensor monomials up to the nominal degree per dimension
     degs = [nominal_degree(name, n) for n in npts]
@@ -214,7 +214,7 @@ def run_case(case):
             fails.append(fail("boundary_off_announced_point_number", "%d points, %d announced" % (len(p0), n0), k2))
         if set(got) != set(want):
             fails.append(fail("boundary_off_points", "level %r box %r-%r: without boundary %r, expected %r" % (lv, s, e, sorted(got), sorted(want)), k2))
-        elif any(abs(got[p] - want[p]) > 1e-13 for p in want):
+        elif any(not (abs(got[p] - want[p]) <= 1e-13) for p in want):
             fails.append(fail("boundary_off_weights", "level %r box %r-%r: weights %r expected %r" % (lv, s, e, sorted(got.items()), sorted(want.items())), k2))
         outcome += (len(p0),)
     elif name in ("simpson", "clenshaw_curtis") and min(lv) >= 1:
